@@ -3,9 +3,20 @@ TITLE = "Block-cyclic data distributions are consistent"
 BC = "parsec/data_dist/matrix/two_dim_rectangle_cyclic.c"
 GRID = "parsec/data_dist/matrix/grid_2Dcyclic.c"
 MAT = "parsec/data_dist/matrix/matrix.c"
-OUTSIDE = []
-ASSUMPTIONS = []
-BOUNDS = {"quick": {}, "thorough": {}}
+OUTSIDE = ["shapes outside the enumerated box (see BOUNDS); tile counts beyond 64 local tiles",
+           "parsec_matrix_block_cyclic_lapack_init (user supplied mloc/nloc) and the slm/sln fields",
+           "sbc.c / sym band (two_dim_rectangle_cyclic_band's symmetric variant), parsec_tiled_matrix_submatrix, data read/write to files",
+           "the real parsec_data_create / parsec_data_t life cycle (stub records its arguments)",
+           "vector ROW/COL storage consistency and DIAG on non-square grids hold only with harness/C20/fix.patch (known findings)"]
+ASSUMPTIONS = ["shape parameters satisfy the documented init contracts: i+m<=lm, j+n<=ln, 0<=ip<P, 0<=jq<Q, kp,kq>=1, symmetric matrices square and only the stored triangle named",
+               "the k-cyclic view is built from a 1-cyclic origin (assert of parsec_matrix_block_cyclic_kview)",
+               "tabular: the user table names ranks < nodes and vpids < nb_vp",
+               "ceilf(sqrtf(nb_vp)) is evaluated from an exact table in the solver run (floats are not given to the solver); native replay uses libm",
+               "calloc of data_map is served from static arrays in the solver run"]
+BOUNDS = {"quick": {"shapes": "enumerated, 32 valuations: grids up to 2x3/3x2, <= 11x5 tiles, kp,kq<=2, offsets, TILE+LAPACK, nb_vp 1..2",
+                    "symbolic": "observing rank, two tiles"},
+          "thorough": {"shapes": "quick + cross product P,Q in {1..4}, P*Q<=16, kp,kq in {1,2,3}, ip,jq in {0,last}, 2 size sets, nb_vp in {1,2,4,6}",
+                       "symbolic": "observing rank, two tiles"}}
 
 def bc_defs(mb, nb, lm, ln, i, j, m, n, P, Qq, kp, kq, ip, jq, nbvp=1, storage="PARSEC_MATRIX_TILE", view=0):
     return ["C_MB=%d" % mb, "C_NB=%d" % nb, "C_LM=%d" % lm, "C_LN=%d" % ln, "C_I=%d" % i, "C_J=%d" % j, "C_M=%d" % m, "C_N=%d" % n,
@@ -34,7 +45,30 @@ def queries(ctx):
     bc("bc_kcyc_2x1_k2_lmt6", 2, 2, 12, 4, 0, 0, 12, 4, 2, 1, 2, 1, 0, 0)
     bc("bc_kcyc_2x2_k21_off", 2, 3, 13, 11, 2, 3, 9, 7, 2, 2, 2, 1, 1, 1, nbvp=2)
     bc("bc_view_2x1_k2_lmt7", 2, 2, 14, 4, 0, 0, 14, 4, 2, 1, 2, 1, 0, 0, view=1)
+    bc("bc_plain_2x2_ip_odd", 2, 2, 10, 6, 0, 0, 10, 6, 2, 2, 1, 1, 1, 1)
+    bc("bc_view_3x1_k2", 2, 2, 22, 2, 0, 0, 22, 2, 3, 1, 2, 1, 0, 0, view=1)
     bc("bc_lapack_2x2", 2, 3, 9, 10, 0, 0, 9, 10, 2, 2, 1, 1, 0, 1, storage="PARSEC_MATRIX_LAPACK")
+    if ctx.thorough:
+        t0 = len(qs)
+        grids = [(1, 1), (1, 2), (2, 1), (2, 2), (1, 3), (3, 1), (2, 3), (3, 2), (2, 4), (4, 2), (4, 4), (3, 3)]
+        ks = [(1, 1), (2, 1), (1, 2), (2, 2), (3, 2)]
+        sizes = [(2, 2, 13, 9, 0, 0, 13, 9), (2, 3, 14, 16, 2, 3, 11, 10)]
+        vps = [1, 2, 4, 6]
+        cnt = 0
+        for (P_, Q_) in grids:
+            for (kp, kq) in ks:
+                for si, sz in enumerate(sizes):
+                    for off in (0, 1):
+                        ip, jq = (0, 0) if off == 0 else (P_ - 1, Q_ - 1)
+                        if off == 1 and P_ * Q_ == 1:
+                            continue
+                        cnt += 1
+                        nbvp = vps[cnt % 4]
+                        view = 1 if (cnt % 6 == 0 and (kp > 1 or kq > 1)) else 0
+                        sto = "PARSEC_MATRIX_LAPACK" if (cnt % 5 == 0 and not view) else "PARSEC_MATRIX_TILE"
+                        bc("bcT_%dx%d_k%d%d_s%d_o%d" % (P_, Q_, kp, kq, si, off), *(sz + (P_, Q_, kp, kq, ip, jq)), nbvp=nbvp, storage=sto, view=view)
+        for q in qs[t0:]:
+            q.tiers = ("thorough",); q.unwind = 20; q.timeout = 1800
     SYM = "parsec/data_dist/matrix/sym_two_dim_rectangle_cyclic.c"
     def sym(name, mb, lm, i, m, P, Qq, uplo, nbvp=1):
         d = ["C_MB=%d" % mb, "C_NB=%d" % mb, "C_LM=%d" % lm, "C_LN=%d" % lm, "C_I=%d" % i, "C_J=%d" % i, "C_M=%d" % m, "C_N=%d" % m,
@@ -88,13 +122,13 @@ def mutants(ctx):
     TAB = "parsec/data_dist/matrix/two_dim_tabular.c"
     VEC = "parsec/data_dist/matrix/vector_two_dim_cyclic.c"
     return [
-        Mutant("grid_rrank_ignores_ip", GRID, "grid->rrank = ((myrank / Q) + (grid->rows - grid->ip)) % grid->rows;", "grid->rrank = (myrank / Q) % grid->rows;", queries=["bc_plain_2x3_off"]),
+        Mutant("grid_rrank_ignores_ip", GRID, "grid->rrank = ((myrank / Q) + (grid->rows - grid->ip)) % grid->rows;", "grid->rrank = (myrank / Q) % grid->rows;", queries=["bc_plain_2x2_ip_odd"]),
         Mutant("rank_of_row_major_by_rows", BC, "    res = rr * dc->grid.cols + cr;\n\n    return res;", "    res = rr * dc->grid.rows + cr;\n\n    return res;", queries=["bc_plain_2x3_off"]),
         Mutant("position_uses_local_cols", BC, "    position = dc->nb_elem_r * local_n + local_m;\n\n    return position;", "    position = dc->nb_elem_c * local_n + local_m;\n\n    return position;", queries=["bc_plain_2x3_off", "bc_plain_2x1"]),
         Mutant("kcyclic_row_count_stride", BC, "            temp += ((dc->grid.rows) * (dc->grid.krows));", "            temp += (dc->grid.rows);", queries=["bc_kcyc_2x1_k2_lmt6", "bc_kcyc_2x2_k21_off"]),
         Mutant("key2coords_div_lnt", BC, "    _n = key / dc->lmt;\n    *m = _m - dc->i / dc->mb;", "    _n = key / dc->lnt;\n    *m = _m - dc->i / dc->mb;", queries=["bc_plain_2x3_off", "bc_plain_2x1"]),
         Mutant("data_key_stride_lnt", MAT, "    return ((n * dc->lmt) + m);", "    return ((n * dc->lnt) + m);", queries=["bc_plain_2x3_off", "bc_plain_2x1"]),
-        Mutant("kview_permutation_swapped", BC, "        m = m-m%(p*ps) + (m%ps)*p + (m/ps)%p;", "        m = m-m%(p*ps) + (m%p)*ps + (m/p)%ps;", queries=["bc_view_2x1_k2_lmt7", "bc_view_2x2_k2"]),
+        Mutant("kview_permutation_swapped", BC, "        m = m-m%(p*ps) + (m%ps)*p + (m/ps)%p;", "        m = m-m%(p*ps) + (m%p)*ps + (m/p)%ps;", queries=["bc_view_3x1_k2"]),
         Mutant("lapack_pos_uses_lln", BC, "            pos = (((size_t)local_n) * ((size_t)dc->super.nb)) * ((size_t)dc->super.llm)\n                +  ((size_t)local_m) * ((size_t)dc->super.mb);\n        }\n    }\n\n    return parsec_tiled_matrix_create_data( &dc->super,\n                                     (char*)dc->mat + pos * parsec_datadist_getsizeoftype(dc->super.mtype),\n                                     position, (n * dc->super.lmt) + m );\n}\n\nstatic parsec_data_t* twoDBC_data_of_key",
                "            pos = (((size_t)local_n) * ((size_t)dc->super.nb)) * ((size_t)dc->super.lln)\n                +  ((size_t)local_m) * ((size_t)dc->super.mb);\n        }\n    }\n\n    return parsec_tiled_matrix_create_data( &dc->super,\n                                     (char*)dc->mat + pos * parsec_datadist_getsizeoftype(dc->super.mtype),\n                                     position, (n * dc->super.lmt) + m );\n}\n\nstatic parsec_data_t* twoDBC_data_of_key", queries=["bc_lapack_2x2"]),
         Mutant("sym_pos_ignores_column", SYM, "        pos += ((m - n) / (dc->grid.rows));", "        pos += (m / (dc->grid.rows));", queries=["sym_lower_2x2", "sym_lower_3x2_sub"]),
@@ -103,4 +137,15 @@ def mutants(ctx):
         Mutant("tab_pos_is_global_index", TAB, "            table->elems[i].pos  = dc->super.nb_local_tiles;", "            table->elems[i].pos  = i;", queries=["tab_3x3_n3"]),
         Mutant("vec_local_index_by_rows", VEC, "    local_m = m / dc->lcm;", "    local_m = m / dc->grid.cols;", queries=["vec_diag_2x3", "vec_diag_2x2_sub"]),
     ]
-CLAIMED = False
+CLAIMED = True
+MANIFEST = {
+ "engine": "cbmc-src",
+ "text": "Bounded model checking of the real distribution units (2D block-cyclic plain / k-cyclic / k-cyclic view, symmetric, band, tabular, vector; "
+         "grid_2Dcyclic.c; matrix.c data_key / create_data) with the collection's own function pointers: for each enumerated shape the solver quantifies over "
+         "the observing rank and two tiles and shows rank_of < P*Q = rank_of_key(data_key), key->coordinates->key identity, vpid in range, slot < nb_local_tiles, "
+         "two tiles of a rank in different slots with disjoint bytes inside the local storage, data created under data_key(m,n), and the per-rank tile counts "
+         "of the real init sum to the number of tiles.  Three defects are reported as KNOWN-FINDINGs with a tested fix (k-cyclic data key, vector ROW/COL "
+         "owner/storage mismatch, vector DIAG init hang on non-square grids).",
+ "note": "shape parameters are enumerated (32 valuations quick, about 270 thorough), not symbolic; parsec_data_create is a recording stub; floats (sqrtf) replaced by an exact table.",
+ "technique": "CBMC bounded symbolic execution of the real C units + SAT (cadical); enumerated shapes, symbolic rank and tile coordinates",
+}
